@@ -21,6 +21,12 @@ coordinates multiplied by s in {1e-4, 1e-2, 1e3}, and three tensor letters are s
 graded (one cell 10^3..10^4 times smaller than its neighbour): absolute constants hidden
 in the geometry code show up there.  All tolerances are relative to the grid size.
 
+Non-convex 2-d letters (four tensor grids whose central node is moved deep into one cell,
+making it a dart whose vertex average lies outside the cell, and the two concave hand
+letters) are run mirrored in x / y / both, shifted, embedded and scaled by
+s in {1e-7, 1e-6, 1e-3, 1, 1e3, 1e6}: the legacy convex-cell fall-back of the 2-d geometry
+must not be entered for a consistently oriented grid at any scale.
+
 Node-perturbed hexahedra have non-planar faces: only the identities that do not
 presuppose planarity are demanded there.
 """
@@ -59,7 +65,7 @@ ASSUMPTIONS = [
     "matrices and all tags must be bitwise unchanged",
 ]
 BOUNDS = {
-    "quick": "37 grid letters (<=72 cells); offsets {0,+-1/4}^dim on <=2 interior nodes (and on <=2 interior node columns of 3-d Cartesian/tensor letters); 3 embeddings (1-d/2-d) / 3 affine maps (3-d); scale axis s in {1e-4,1e-2,1,1e3} on every unperturbed and singly perturbed grid; 3 graded tensor grids with cell-size ratios 1e3..1e4",
+    "quick": "37 grid letters (<=72 cells); offsets {0,+-1/4}^dim on <=2 interior nodes (and on <=2 interior node columns of 3-d Cartesian/tensor letters); 3 embeddings (1-d/2-d) / 3 affine maps (3-d); scale axis s in {1e-4,1e-2,1,1e3} on every unperturbed and singly perturbed grid; 3 graded tensor grids with cell-size ratios 1e3..1e4; 6 non-convex 2-d letters x 4 mirrors x 3 shifts x 2 embeddings x scales {1e-7,1e-6,1e-3,1,1e3,1e6}",
     "thorough": "41 grid letters (<=72 cells); offsets on <=3 interior nodes in 1-d/2-d, <=2 in 3-d (and <=2 node columns); 5 embeddings / 3 affine maps; same scale axis",
 }
 MIN_CLASSES = 6
@@ -106,6 +112,9 @@ def cases(tier):
                 for i in cols:
                     for off in G.lattice_offsets(2):
                         out.append({"name": name, "spec": v, "firstcol": [i, off], "first": None, "later": [j for j in cols if j > i], "kmax": 2})
+    # non-convex (dart) 2-d letters over six decades of scale, mirrored and shifted
+    for name, v in G.dart_specs():
+        out.append({"name": name, "spec": v, "first": None, "kmax": 1})
     return out
 
 
